@@ -18,6 +18,7 @@ import SccacheModel.Driver.EntryRead
 import SccacheModel.Driver.Atomic
 import SccacheModel.Driver.Tokens
 import SccacheModel.Driver.Config
+import SccacheModel.Driver.RustArgs
 
 /-- `modeld <model>`: line-protocol driver, one sub-command per executable model (DESIGN.md C.1) -/
 def main (args : List String) : IO UInt32 := do
@@ -42,4 +43,5 @@ def main (args : List String) : IO UInt32 := do
   | ["atomic"] => DrvAtomic.main *> pure 0
   | ["tokens"] => DrvTokens.main *> pure 0
   | ["config"] => DrvConfig.main *> pure 0
+  | ["rustargs"] => DrvRustArgs.main *> pure 0
   | _ => do IO.eprintln "usage: modeld <model>"; pure 2
